@@ -1,14 +1,14 @@
-\* What surrealkv does today: filter block not verified, SetCompressionType record obeyed
-\* unchecked, later log segments replayed after a repair.  KnownGaps names exactly those, plus the
-\* latent one no switch closes: the footer's block handles have no checksum of their own, so a handle
+\* The repository after the fix commits 9667772 / c6a8bd9 / a66809f: the filter block is verified, the
+\* SetCompressionType record is crc-checked, only the newest log segment is repaired.  KnownGaps names
+\* the latent gap no switch closes: the footer's block handles have no checksum of their own, so a handle
 \* altered into the position of ANOTHER intact block of the same size passes the block crc.
 CONSTANTS
     Deep = FALSE
     WalMode = "repair"
-    VerifyFilter = FALSE
-    CompressionRecordChecked = FALSE
-    RepairOnlyNewestSegment = FALSE
-    KnownGaps = {"sst.filter_used_unverified", "wal.compression_record_unverified", "wal.repair_in_the_middle_of_the_log", "sst.footer_handle_unverified"}
+    VerifyFilter = TRUE
+    CompressionRecordChecked = TRUE
+    RepairOnlyNewestSegment = TRUE
+    KnownGaps = {"sst.footer_handle_unverified"}
     Absent = "ABSENT"
     Tables <- MCTables
     NBlocks <- MCNBlocks
